@@ -345,6 +345,32 @@ OUT_GOMODS = {"empty": "", "only-go-line": "go 1.23\n", "only-comments": "// not
               "quoted-empty": "module \"\"\n", "tab-only": "module\t\n"}
 
 
+def random_gomod(rng):
+    """a syntactically valid go.mod for module example.com/m assembled from the forms the grammar allows"""
+    nl = "\n"
+    c = rng.choice
+    cm = lambda: c(["", "", " // note", "\t// module example.com/other", " //"])
+    lead = c(["", "// header\n", "// module not/this/one\n\n", "\n\n", "/* not a comment form in go.mod */\n"][:4])
+    mod = c(["module example.com/m", "module\texample.com/m", "module \"example.com/m\"", "module (\n\texample.com/m\n)",
+             "module (\n\t\"example.com/m\"" + cm() + "\n)", "module   example.com/m  "]) + cm()
+    go = c(["go 1.23", "go 1.23.0", "go\t1.23", "go 1.22"]) + cm()
+    req1 = c(["require github.com/stretchr/testify v1.10.0", "require (\n\tgithub.com/stretchr/testify v1.10.0\n)", "require \"github.com/stretchr/testify\" v1.10.0",
+              "require (\n\tgithub.com/stretchr/testify v1.10.0 // direct\n\n)"])
+    extras = []
+    for e in rng.sample(["exclude example.com/gone v1.0.0", "exclude (\n\texample.com/gone v1.0.0\n\texample.com/gone v1.1.0\n)", "retract v0.0.1 // published by accident",
+                         "retract [v0.1.0, v0.2.0]", "retract (\n\tv0.3.0\n\t[v0.4.0, v0.5.0] // range\n)", "replace example.com/unused => ./unused",
+                         "replace example.com/unused v1.0.0 => example.com/unused2 v1.2.3", "godebug default=go1.21", "// module trailing/comment"], rng.randint(0, 3)):
+        extras.append(e)
+    parts = [mod, go] if rng.random() < 0.8 else [go, mod]
+    body = [req1] + extras
+    rng.shuffle(body)
+    text = lead + (nl + nl).join(parts + body) + nl
+    tail = GOMOD_TAIL
+    if rng.random() < 0.15:
+        text, tail = text.replace(nl, "\r\n"), tail.replace(nl, "\r\n")
+    return text + tail
+
+
 def unusual_cases():
     cases = [{"kind": "unusual", "what": "outmod-" + k, "outmod": k} for k in OUT_GOMODS]
     for name in GOMODS:
@@ -364,7 +390,13 @@ def build_unusual(case):
     gomod = None
     yaml_text = None
     w = case["what"]
-    if w.startswith("gomod-"):
+    if w == "gomod-random":
+        gomod = case["gomod_text"]
+        if case["placement"] == "outpkg":
+            cfg["dir"] = "mocks/{{.SrcPackageName}}"
+            cfg["pkgname"] = "mocks"
+            cfg["filename"] = "mocks.go"
+    elif w.startswith("gomod-"):
         gomod = GOMODS[case["gomod"]] + GOMOD_TAIL.replace("\n", "\r\n" if case["gomod"] == "crlf" else "\n")
         if case["placement"] == "outpkg":
             cfg["dir"] = "mocks/{{.SrcPackageName}}"
@@ -654,18 +686,31 @@ def body(ctx, replay=None):
                 if "config-not-yaml" in (a, b):
                     continue
                 la, lb = ctx.rng.choice(INVALID[a][0]), ctx.rng.choice(INVALID[b][0])
-                try:  # some pairs cannot be combined (one removes what the other edits): skip them at generation time
-                    f0, c0 = copy.deepcopy(GOOD_SRC), base_cfg(3)
-                    if a in REGEX_CLASSES:
-                        c0["packages"][MOD + "/p1"].pop("interfaces")
-                    INVALID[a][1](f0, c0, la)
-                    INVALID[b][1](f0, c0, lb)
+                try:  # some pairs cannot be combined (one removes or overwrites what the other edits): skip them at generation time
+                    both = []
+                    for first, second in (((a, la), (b, lb)), ((b, lb), (a, la))):
+                        f0, c0 = copy.deepcopy(GOOD_SRC), base_cfg(3)
+                        if a in REGEX_CLASSES:
+                            c0["packages"][MOD + "/p1"].pop("interfaces")
+                        INVALID[first[0]][1](f0, c0, first[1])
+                        INVALID[second[0]][1](f0, c0, second[1])
+                        both.append(json.dumps([f0, c0], sort_keys=True))
+                    # each fault alone must also differ from the pair, otherwise one fault swallowed the other
+                    singles = []
+                    for one in ((a, la), (b, lb)):
+                        f0, c0 = copy.deepcopy(GOOD_SRC), base_cfg(3)
+                        if a in REGEX_CLASSES:
+                            c0["packages"][MOD + "/p1"].pop("interfaces")
+                        INVALID[one[0]][1](f0, c0, one[1])
+                        singles.append(json.dumps([f0, c0], sort_keys=True))
+                    if both[0] != both[1] or both[0] in singles:
+                        continue
                 except Exception:
                     continue
                 cases.append({"kind": "invalid", "class": a, "level": la, "alone": False, "extra": [[b, lb]]})
-                continue
-                cases.append({"kind": "invalid", "class": a, "level": ctx.rng.choice(INVALID[a][0]), "alone": False,
-                              "extra": [[b, ctx.rng.choice(INVALID[b][0])]]})
+        import random as _random
+        for j in range(40 if ctx.tier == "quick" else 600):
+            cases.append({"kind": "unusual", "what": "gomod-random", "gomod_text": random_gomod(_random.Random(ctx.seed * 100003 + j)), "placement": ["inpkg", "outpkg"][j % 2]})
         nf = 150 if ctx.tier == "quick" else 3000
         cases += [{"kind": "fuzz", "seed": ctx.rng.randrange(1 << 30)} for _ in range(nf)]
     ctx.run_cases(cases, eval_case)
